@@ -36,6 +36,8 @@ def named_keys(op):
             ks += [k for k, _ in pos.get("d", pos.get("p", []))]
         ks += [k for k, _ in op.get("kw", [])]
         return ks
+    if n == "update_items":
+        return [k for k, _ in op["items"]]
     if n == "ior":
         v = op.get("v")
         if isinstance(v, dict):
@@ -60,6 +62,17 @@ def check(ex, info):
     renamed = False
     if op is not None and op["op"] == "setitem" and info["args"] and info["args"][0][0] == "elem":
         renamed = (op.get("a") or {}).get("rename") is not None
+    # an Element of the declared field class handed to a SparseDict is adopted: it must be the stored member
+    adopted = []
+    if op is not None and kind == "sparse" and info.get("raised") is None and op["op"] in ("setitem", "update_items"):
+        keys_args = [(op["k"], info["args"][0])] if op["op"] == "setitem" else \
+            list(zip([k for k, _ in op["items"]], info["args"]))
+        last = {}
+        for k, (tag, v) in keys_args:
+            last[k] = (tag, v)
+        for k, (tag, v) in last.items():
+            if tag == "elem" and k in field_cls and type(v) is field_cls[k]:
+                adopted.append((k, v))
 
     def fail(clause, expected, observed):
         fails.append({"clause": clause, "expected": expected, "observed": observed, "step": info["i"], "op": op,
@@ -86,12 +99,18 @@ def check(ex, info):
             fail("value-named-after-key", k, v.name)
         if v.parent is not root:
             fail("value-parent-is-mapping", "the mapping", "None" if v.parent is None else type(v.parent).__name__)
+    for k, v in adopted:
+        if dict.get(root, k) is not v:
+            fail("element-of-field-class-adopted", "the Element argument is the stored member", "another object is stored")
+        elif v.parent is not root:
+            fail("adopted-element-parent-is-mapping", "the mapping", "None" if v.parent is None else
+                 ("its previous container" if v.parent is ex.foreign_owner.get(id(v)) else type(v.parent).__name__))
     # operations naming an undeclared key are rejected and never add it
     if op is not None and not (isinstance(info["out"], dict) and "skip" in info["out"]):
         und = [k for k in named_keys(op) if k not in declared]
         if und:
             n = op["op"]
-            must_raise = n in ("setitem", "delitem", "pop", "setdefault", "get", "update", "ior")
+            must_raise = n in ("setitem", "delitem", "pop", "setdefault", "get", "update", "ior", "update_items")
             if n == "set":
                 pol = op["policy"] if "policy" in op and op["policy"] is not None else schema["policy"]
                 must_raise = pol in ("strict", "subset")
@@ -197,6 +216,18 @@ class C10(Property):
         # open KF-C10-a: an Element of a renamed subclass is stored under the key with its foreign name
         out.append({"schema": _map("sparse", [a]), "init": {"route": "ctor", "value": None},
                     "ops": [_op({"op": "setitem", "k": "a", "a": {"new": "v", "rename": "zz", "cid": 100001}})]})
+        # an Element of the declared field class that belongs to ANOTHER mapping, assigned onto a present and an
+        # absent key through __setitem__, update(dict/kw/pairs) and |= : it is adopted and re-parented
+        X = _scalar(2, "integer", "x")
+        Y = _scalar(3, "integer", "y")
+        for form in ("dict", "kw", "pairs", "ior"):
+            out.append({"schema": _map("sparse", [X, Y], name="form"), "init": {"route": "ctor_value", "value": {"d": [["x", 1]]}},
+                        "ops": [_op({"op": "setitem", "k": "x", "a": {"new": 5, "foreign": True}}),
+                                _op({"op": "setitem", "k": "y", "a": {"new": 7, "foreign": True}}),
+                                _op({"op": "update_items", "form": form, "items": [["x", {"new": 9, "foreign": True}],
+                                                                                  ["y", {"new": 8, "foreign": True}]]}),
+                                _op({"op": "pop", "k": "x"}),
+                                _op({"op": "update_items", "form": form, "items": [["x", {"pool": 0}], ["y", {"pool": 0}]]})]})
         return out
 
     def generate(self, rng, n, tier):
@@ -267,7 +298,7 @@ class C10(Property):
         t = ["kind=" + s["k"] + ("+required" if s["minreq"] else ""), "policy=" + s["policy"],
              "route=" + case["init"]["route"], "ops=%d" % len(case["ops"])]
         declared = [f["name"] for f in s["subs"]]
-        for o, st in zip(case["ops"], obs["steps"][1:]):
+        for o, st, prev in zip(case["ops"], obs["steps"][1:], obs["steps"]):
             out = st["out"]
             name = o["m"]["op"]
             und = any(k not in declared for k in named_keys(o["m"]))
@@ -279,10 +310,16 @@ class C10(Property):
             else:
                 t.append("op:%s:ok%s" % (name, suffix))
             a = o["m"].get("a") or {}
-            if "rename" in a:
-                t.append("arg:renamed-subclass")
-            elif "new" in a or "pool" in a:
-                t.append("arg:element")
+            for a in [a] + [x for _, x in o["m"].get("items", [])]:
+                if "rename" in a:
+                    t.append("arg:renamed-subclass")
+                elif "new" in a or "pool" in a:
+                    t.append("arg:element")
+                if a.get("foreign"):
+                    t.append("arg:element-owned-by-another-container")
+                    present = any(r[0] == (o["m"].get("k") if name == "setitem" else None) for r in prev["view"].get("items", []))
+                    if name == "setitem":
+                        t.append("foreign-onto-%s-key" % ("present" if present else "absent"))
             if name == "set" and "policy" in o["m"]:
                 t.append("set-policy=%s" % o["m"]["policy"])
         return sorted(set(t))
